@@ -179,6 +179,29 @@ func ruleFIELD1(c *Ctx) {
 			}
 		}
 		c.Oblige("marshal:unwrite-only-for-omitempty", f.Pos(), okUnwrite, "UnwriteEmptyObjectMember is not limited to omitempty fields under v2 semantics")
+		// a field counts as written only once its member survived: the seen-set insertion that backs the
+		// duplicate check against embedded-fallback names comes after the point where the member may be taken back
+		var unwritePos, insertPos token.Pos
+		p.InspectScope(f, func(g *FuncInfo, nd ast.Node) bool {
+			call, ok := nd.(*ast.CallExpr)
+			if !ok || g != f {
+				return true
+			}
+			if cf := Callee(info, call); cf != nil {
+				switch {
+				case cf.Name() == "UnwriteEmptyObjectMember":
+					unwritePos = call.Pos()
+				case cf.Name() == "insert" && cf.Type().(*types.Signature).Recv() != nil:
+					if _, rn := recvTypeName(cf.Type().(*types.Signature).Recv().Type()); rn == "uintSet" && insertPos == token.NoPos {
+						insertPos = call.Pos()
+					}
+				}
+			}
+			return true
+		})
+		if unwritePos != token.NoPos && insertPos != token.NoPos {
+			c.Oblige("marshal:seen-recorded-after-unwrite", insertPos, insertPos > unwritePos, "the field is entered into the seen set before the point where its empty member may be taken back (UnwriteEmptyObjectMember): an omitted member still reserves its name, and an embedded-fallback member of that name is refused as a duplicate")
+		}
 	}
 
 	// unmarshal closure: exact before folded, ambiguity, unknown
